@@ -195,7 +195,7 @@ PROPS['C13'] = dict(
     level_note='The mirror (ranks flipped, colours, rights, ep square, side swapped) is done on the FEN by the harness; a mismatch is re-checked with fresh evaluators so that cache defects (C14) are not blamed on symmetry.',
     rule='evaluations = (position, mirror) pairs with sufficient mating material. Non-trivial = distinct positions (each pair exercises the relation); classes eval:sig_<signature>_<w|b> count the specialised classes per strong colour.',
     assumptions=[],
-    quick=dict(cases=900, shards=16, scale=3, gates=dict([('eval:sig_%s_%s' % (n, c), 120) for n in ['KPK','KBPsKB2','KBPKB','KQKP','KRKP','KNNKP','KQKRP','KBPsK2','KPsK2','KNBK'] for c in 'wb']), min_nontrivial=30000),
+    quick=dict(cases=900, shards=16, scale=3, gates=dict([('eval:sig_%s_%s' % (n, c), 120) for n in ['KPK','KBPsKB2','KBPKB','KQKP','KRKP','KNNKP','KQKRP','KBPsK2','KPsK2','KNBK'] for c in 'wb'] + [('eval:kbpskb_blockade_w', 300), ('eval:kbpskb_blockade_b', 300)]), min_nontrivial=30000),
     thorough=dict(cases=40000, shards=16, scale=3, min_nontrivial=2000000),
 )
 PROPS['C14'] = dict(
